@@ -5,8 +5,10 @@
     apiRequest.IdleHandler, Go, Batch, chain, join in api.go and of the executor's decision to call
     the idle handler): [run fx p init tr = Some s] says that the interleaving [tr] of executor,
     idle-handler and goroutine steps is possible for the request whose resolvers are described by
-    the work-item forest [p] and leads to state [s].  [fx = true] is the repaired code, [fx = false]
-    the pinned code (no executionDone case); [wf_items p] says chain/join items name earlier promise
+    the work-item forest [p] and leads to state [s].  [fx : variant] selects the code: [v_fix fx = true]
+    is the repaired code, [false] the pinned code (no executionDone case); [v_loop fx = true] is the
+    idle handler that exists (loops after delivering to a chained promise), [false] the rewrite that
+    returns to the executor instead (property intact; covered so that the acceptor need not pin it); [wf_items p] says chain/join items name earlier promise
     items, each once; [bfun_ok p] is the documented contract of batch resolvers (one result per field
     context).  Every theorem quantifies over ALL interleavings [tr]: no bound on sizes or schedules.
 
@@ -14,14 +16,15 @@
     channel operations, [select] and [sync.WaitGroup] behave as the LTS' labels say is assumed, not
     proved; the correspondence check replays observed histories of the real code through the LTS. *)
 From Coq Require Import List ZArith Arith.
-From ApiFu Require Import Idle.IdleModel Idle.IdleSpec Idle.IdleProofs Idle.IdleLive Idle.IdleHist.
+From ApiFu Require Import Idle.IdleModel Idle.IdleSpec Idle.IdleProofs Idle.IdleLive Idle.IdleHist Idle.IdleFair.
+From ApiFu Require Fut.Plan Fut.ExecAsync Fut.ExecSync Fut.AsyncRun Fut.FutSpec Fut.FutProofs.
 Import ListNotations.
 
 Section C15.
   Variable p : prog.
   Hypothesis WF : wf_items p = true.
   Hypothesis BF : bfun_ok p.
-  Variable fx : bool.
+  Variable fx : variant.
 
   (** every history of the model satisfies the reference semantics of Idle/IdleSpec.v (DELIVERY,
       ONCE, COALESCED, NO PHANTOM, NO LOST — see the head of that file) *)
@@ -88,25 +91,90 @@ Section C15.
       f(), waiting for an inner promise, or at the hand-over) can take a step of its own
       ([own_label w]: f() returns, it reaches the hand-over, or the executionDone case fires) ... *)
   Theorem C15_no_leak : forall tr s w,
-    run true p init tr = Some s -> st_phase s = PEnded -> active (st_gor s w) ->
-    exists l s', own_label w l /\ step true p s l = Some s' /\ st_phase s' = PEnded.
-  Proof. exact (no_leak_run p WF BF). Qed.
+    v_fix fx = true ->
+    run fx p init tr = Some s -> st_phase s = PEnded -> active (st_gor s w) ->
+    exists l s', own_label w l /\ step fx p s l = Some s' /\ st_phase s' = PEnded.
+  Proof. exact (fun tr s w => no_leak_run p WF BF fx tr s w). Qed.
 
   (** ... and they all end. *)
   Theorem C15_drains : forall tr s,
-    run true p init tr = Some s -> st_phase s = PEnded ->
-    exists tr' s', run true p init (tr ++ tr') = Some s' /\ st_phase s' = PEnded /\
+    v_fix fx = true ->
+    run fx p init tr = Some s -> st_phase s = PEnded ->
+    exists tr' s', run fx p init (tr ++ tr') = Some s' /\ st_phase s' = PEnded /\
                    forall w, ~ active (st_gor s' w).
-  Proof. exact (drains_run p WF BF). Qed.
+  Proof. exact (fun tr s => drains_run p WF BF fx tr s). Qed.
+  (** ** The executor's contract for idle handlers (executor.go: "before the idle handler returns, a
+      result must be sent to at least one previously returned ResolvePromise"; C02: [fair]) *)
+
+  (** Every idle round fills at least one promise that existed and was empty at the entry. *)
+  Theorem C15_idle_round_fulfils : forall pre mid s,
+    run fx p init (pre ++ LIdleEnter :: mid ++ [LIdleExit]) = Some s -> ~ In LIdleExit mid ->
+    exists w, In w (deliveries mid) /\ In w (created_of pre) /\ ~ In w (deliveries pre) /\
+              promise_item p w = true.
+  Proof. exact (round_fulfils p WF BF fx). Qed.
+
+  (** For requests without chaining (Go and Batch resolvers; no promise read by a chain/join
+      goroutine) it is a promise the executor holds and still waits for: C02's fairness, literally. *)
+  Theorem C15_idle_round_fair_unchained : forall pre mid s,
+    no_chaining p ->
+    run fx p init (pre ++ LIdleEnter :: mid ++ [LIdleExit]) = Some s -> ~ In LIdleExit mid ->
+    exists w, In w (deliveries mid) /\
+              visible p w = true /\ In w (created_of pre) /\ ~ In w (deliveries pre).
+  Proof. exact (round_fair_unchained p WF BF fx). Qed.
+
+  (** With chaining a round may fill only inner promises (see the refutation below); the executor
+      then calls the handler again, and altogether never more often than the request has promises. *)
+  Theorem C15_idle_rounds_bounded : forall tr s,
+    run fx p init tr = Some s -> exits tr <= length (filter (promise_item p) (ids p)).
+  Proof. exact (rounds_bounded p WF BF fx). Qed.
 End C15.
+
+(** The literal contract is violated when promises are chained (connection whose getter is a Batch
+    resolver): an idle round that fills only a promise the executor never saw, while the promise it
+    waits for stays empty.  Harmless for graphql/executor's wait loop (it calls the handler again);
+    it is why C02's per-round fairness cannot be claimed of api-fu's handler as it stands. *)
+Theorem C15_round_fairness_refuted_with_chaining :
+  exists p pre mid s,
+    wf_items p = true /\ bfun_ok p /\
+    run current p init (pre ++ LIdleEnter :: mid ++ [LIdleExit]) = Some s /\ ~ In LIdleExit mid /\
+    (exists w, visible p w = true /\ In w (created_of pre) /\ ~ In w (deliveries pre)) /\
+    forall w, In w (deliveries mid) -> visible p w = false.
+Proof. exact round_fairness_refuted_with_chaining. Qed.
+
+(** ** Composition with C02 ("response == response of the same query with all resolvers synchronous")
+
+    [sched_of_rounds cs] reads what a handler did round by round ([cs] = the promises filled in its
+    r-th call) as a scheduler of C02's executor model; it does exactly that on every (round,
+    outstanding set) the record hits, and it is fair.  Hence, by C02: whatever two handlers did —
+    any completion order, timing and grouping into rounds — both executions finish with the data of
+    the all-synchronous reference and responses conforming to the plan.
+    RESIDUE (argued in checks/C15.design.md, not proved): that C02's (round, outstanding set) at
+    its r-th idle call is the LTS' set of created, empty, executor-held promises at the r-th
+    productive [LIdleEnter] — a joint model of executor and handler would be needed; for chained
+    requests, rounds that fill only inner promises are stuttering steps of C02's round. *)
+Theorem C15_handler_record_is_fair_scheduler : forall cs,
+  AsyncRun.fair (sched_of_rounds cs) /\
+  forall r out x, In x (nth r cs []) -> In x (map fst out) -> sched_of_rounds cs r out = nth r cs [].
+Proof. exact (fun cs => conj (sched_of_rounds_fair cs) (sched_of_rounds_agrees cs)). Qed.
+
+Theorem C15_response_eq_sync_composed : forall md root (cs1 cs2 : list (list nat)) fuel jfuel,
+  Plan.count_async root <= fuel -> FutProofs.resp_depth root < jfuel ->
+  exists r1 r2,
+    ExecAsync.run ExecAsync.fixed_flags (sched_of_rounds cs1) md fuel jfuel root = ExecAsync.Done r1 /\
+    ExecAsync.run ExecAsync.fixed_flags (sched_of_rounds cs2) md fuel jfuel root = ExecAsync.Done r2 /\
+    ExecAsync.r_data r1 = ExecSync.sr_data (ExecSync.run_sync root) /\
+    ExecAsync.r_data r2 = ExecSync.sr_data (ExecSync.run_sync root) /\
+    FutSpec.conforms root (ExecAsync.r_data r1) (ExecAsync.r_errors r1) /\
+    FutSpec.conforms root (ExecAsync.r_data r2) (ExecAsync.r_errors r2).
+Proof. exact response_independent_of_handler_rounds. Qed.
 
 (** The defect of the pinned tree, kept as a witness: without the executionDone case a request
     ({slow bad}: a Go field whose promise is abandoned) reaches a state in which the request has
     returned, a goroutine sits at its send, and nothing can ever move again. *)
 Theorem C15_no_leak_refuted_before_fix :
-  exists p tr s w r, wf_items p = true /\ bfun_ok p /\ run false p init tr = Some s /\
+  exists p tr s w r, wf_items p = true /\ bfun_ok p /\ run pinned p init tr = Some s /\
                      st_phase s = PEnded /\ st_gor s w = GParked r /\
-                     forall l, step false p s l = None.
+                     forall l, step pinned p s l = None.
 Proof. exact leak_refuted_before_fix. Qed.
 
 Print Assumptions C15_refines_spec.
@@ -121,3 +189,9 @@ Print Assumptions C15_completes.
 Print Assumptions C15_no_leak.
 Print Assumptions C15_drains.
 Print Assumptions C15_no_leak_refuted_before_fix.
+Print Assumptions C15_idle_round_fulfils.
+Print Assumptions C15_idle_round_fair_unchained.
+Print Assumptions C15_idle_rounds_bounded.
+Print Assumptions C15_round_fairness_refuted_with_chaining.
+Print Assumptions C15_handler_record_is_fair_scheduler.
+Print Assumptions C15_response_eq_sync_composed.
